@@ -368,3 +368,37 @@ PROPS["C16"] = {
         ],
     },
 }
+
+
+def RC(tasks=3, init_max=2, **kw):
+    cfg = {"tasks": ["t%d" % i for i in range(1, tasks + 1)], "init_max": init_max, "has_runtime": True}
+    for k in ("npre", "npost", "npc", "async_pre", "async_post", "async_pc", "lifo", "has_runtime"):
+        if k in kw:
+            cfg[k] = kw.pop(k)
+    rc = {"cfg": cfg, "modes": ["nb", "bl"], "ctos": ["none"], "rtos": ["none"], "ops": 30, "max_objs": 24}
+    rc.update(kw)
+    return rc
+
+
+R_PLAIN = RC(tasks=4, init_max=3, npost=1, async_post=[1], allow_take=True, allow_retain=True, allow_panic=True)
+R_TIMED = RC(tasks=3, init_max=2, npre=1, npc=1, async_pc=[1], modes=["nb", "bl", "timed"], ctos=["none", "finite"], rtos=["none", "finite"],
+             allow_take=True, allow_panic=True)
+R_RESIZE = RC(tasks=4, init_max=2, resize_targets=[0, 1, 3, 4], allow_retain=True, allow_take=True, npost=1)
+R_CLOSE = RC(tasks=3, init_max=2, resize_targets=[1, 3], allow_close=True, allow_drop_pool=True, allow_take=True, allow_retain=True)
+R_HOOKS = RC(tasks=3, init_max=3, npre=2, async_pre=[2], npost=2, async_post=[1], npc=2, async_pc=[2], lifo=True, allow_retain=True)
+R_NORT = RC(tasks=2, init_max=2, has_runtime=False, modes=["nb", "bl", "timed"], ctos=["none", "finite"], rtos=["none", "finite"], allow_cancel=False)
+
+for pid, (quick, thorough) in {
+    "C01": ([("plain", R_PLAIN, 150, 300)], [("plain", R_PLAIN, 4000, 600), ("hooks", R_HOOKS, 2000, 600)]),
+    "C02": ([("plain", R_PLAIN, 100, 300), ("timed", R_TIMED, 100, 300)], [("plain", R_PLAIN, 4000, 600), ("timed", R_TIMED, 4000, 600)]),
+    "C03": ([("timed", R_TIMED, 150, 300)], [("timed", R_TIMED, 4000, 600), ("hooks", R_HOOKS, 2000, 600)]),
+    "C04": ([("hooks", R_HOOKS, 150, 300)], [("hooks", R_HOOKS, 4000, 600), ("timed", R_TIMED, 2000, 600)]),
+    "C06": ([("close", R_CLOSE, 150, 300)], [("close", R_CLOSE, 5000, 600)]),
+    "C07": ([("resize", R_RESIZE, 150, 300)], [("resize", R_RESIZE, 5000, 600)]),
+    "C08": ([("hooks", R_HOOKS, 100, 300)], [("hooks", R_HOOKS, 3000, 600), ("plain", R_PLAIN, 2000, 600)]),
+    "C09": ([("resize", R_RESIZE, 100, 300), ("close", R_CLOSE, 100, 300)], [("resize", R_RESIZE, 3000, 600), ("close", R_CLOSE, 3000, 600)]),
+    "C10": ([("timed", R_TIMED, 100, 300), ("nort", R_NORT, 100, 200)], [("timed", R_TIMED, 4000, 600), ("nort", R_NORT, 2000, 400)]),
+    "C11": ([("resize", R_RESIZE, 100, 300), ("plain", R_PLAIN, 100, 300)], [("resize", R_RESIZE, 3000, 600), ("plain", R_PLAIN, 3000, 600)]),
+    "C13": ([("hooks", R_HOOKS, 150, 300)], [("hooks", R_HOOKS, 4000, 600)]),
+}.items():
+    PROPS[pid]["random"] = {"quick": quick, "thorough": thorough}
